@@ -186,7 +186,12 @@ FenFails(e) ==
 (***************************************************************************)
 MATE == 100000
 MateWindow == 15
-EvalBound == 30000   \* far below MATE - MateWindow: nine queens a side stay under it
+EvalBound == 50000   \* "far below" the mate range [MATE - 100, MATE]: at most half of it
+\* the bound is claimed for material up to nine queens a side (at most 16 men a side)
+CountCol(b, c) == Cardinality({s \in 1..64 : Col(b[s]) = c})
+CountPc(b, p) == Cardinality({s \in 1..64 : b[s] = p})
+BoundedMaterial(b) == /\ CountCol(b, 0) <= 16 /\ CountCol(b, 1) <= 16
+                      /\ CountPc(b, Pc(0, Q)) <= 9 /\ CountPc(b, Pc(1, Q)) <= 9
 EvalFails(e) ==
   LET p == Decode(e.p) IN
   (IF Encode(Mirror(p)) # [r |-> e.mirror.r, stm |-> e.mirror.stm, cr |-> e.mirror.cr, ep |-> e.mirror.ep]
@@ -194,7 +199,16 @@ EvalFails(e) ==
   \cup (IF e.e_m # e.e THEN {<<"C14", "mirror", D(<<e.e, e.e_m>>)>>} ELSE {})
   \cup (IF e.e_swap # -e.e THEN {<<"C14", "side-relative", D(<<e.e, e.e_swap>>)>>} ELSE {})
   \cup (IF \E i \in 1..Len(e.e_var) : e.e_var[i] # e.e THEN {<<"C14", "depends-on-non-placement", D(e.e_var)>>} ELSE {})
-  \cup (IF e.e >= EvalBound \/ e.e <= -EvalBound THEN {<<"C14", "bound", D(e.e)>>} ELSE {})
+  \cup (IF BoundedMaterial(p.b) /\ (e.e >= EvalBound \/ e.e <= -EvalBound) THEN {<<"C14", "bound", D(e.e)>>} ELSE {})
+
+(***************************************************************************)
+(* cli: the command-line front end `walleye --fen <input> -T -d 1`.        *)
+(* It must exit normally for every string (printing the error); a spec     *)
+(* FEN must be accepted (the node count line is printed).                  *)
+(***************************************************************************)
+CliFails(e) ==
+  (IF e.exit # 0 THEN {<<"C15", "cli-exit", D(<<e.exit, e.input>>)>>} ELSE {})
+  \cup (IF e.kind = "spec" /\ ~e.searched THEN {<<"C15", "cli-rejected", D(e.input)>>} ELSE {})
 
 Fails(e) ==
   CASE e.ev = "gen" -> (IF WellFormed(Decode(e.pos)) THEN GenFails(e) ELSE {})
@@ -203,10 +217,11 @@ Fails(e) ==
     [] e.ev = "pos" -> PosFails(e)
     [] e.ev = "fen" -> FenFails(e)
     [] e.ev = "eval" -> EvalFails(e)
+    [] e.ev = "cli" -> CliFails(e)
     [] OTHER -> {<<"TOOL", "unknown-event", D(e.ev)>>}
 
 ZeroCnt == [gen |-> 0, skipped |-> 0, castle |-> 0, ep |-> 0, promo |-> 0, incheck |-> 0, moves |-> 0,
-            chk |-> 0, txt |-> 0, pos |-> 0, fen |-> 0, eval |-> 0]
+            chk |-> 0, txt |-> 0, pos |-> 0, fen |-> 0, eval |-> 0, cli |-> 0]
 Count(c, e) ==
   CASE e.ev = "gen" ->
          IF WellFormed(Decode(e.pos))
@@ -219,6 +234,7 @@ Count(c, e) ==
     [] e.ev = "pos" -> [c EXCEPT !.pos = @ + 1]
     [] e.ev = "fen" -> [c EXCEPT !.fen = @ + 1]
     [] e.ev = "eval" -> [c EXCEPT !.eval = @ + 1]
+    [] e.ev = "cli" -> [c EXCEPT !.cli = @ + 1]
     [] OTHER -> c
 
 Init == l = 1 /\ bad = {} /\ cnt = ZeroCnt
